@@ -1,5 +1,5 @@
 import sys, time
-sys.path.insert(0, "/verif"); sys.path.insert(0, "/repo")
+import os; sys.path.insert(0, "/verif"); sys.path.insert(0, os.environ.get("PYVC_REPO", "/repo"))
 from pyvc import verify
 mods = sys.argv[1].split(",")
 reg, sources = verify.load_sidecars(mods)
@@ -12,5 +12,5 @@ for key in sys.argv[2:]:
     print(Counter((o["name"], o["status"]) for o in rep.obligations))
     for o in rep.obligations:
         if o["status"] != "discharged":
-            print("  ", o["name"], o["status"], o.get("exception"), o.get("where"), o.get("line"), str(o.get("model"))[:600], o.get("reason"))
+            print("  ", o["name"], o["status"], o.get("backend"), o.get("time"), o.get("exception"), o.get("where"), o.get("line"), str(o.get("model"))[:600], o.get("reason"))
     print("  assumptions:", sorted(rep.assumptions)[:20])
